@@ -37,6 +37,10 @@ pub struct Program {
     /// scenario `legacy`: the node was stopped with SIGINT (else killed)
     #[serde(default)]
     pub legacy_clean_stop: bool,
+    /// a session has registered as arbiter of the database (a legal command on any database) before the
+    /// writes start: "" = nobody, "arbiter", or "watch" (= `watch $conflicts`); the session stays or leaves
+    #[serde(default)]
+    pub arbiter_session: String,
 }
 
 const KEYS: [&str; 2] = ["ka", "kb"];
@@ -63,6 +67,14 @@ fn gen_ops(rng: &mut Rng, n: usize, uniq: &mut u32, snapshots: bool) -> Vec<Op> 
 }
 
 fn gen(rng: &mut Rng, scenario: &str) -> Program {
+    let mut p = gen_base(rng, scenario);
+    if rng.chance(1, 4) {
+        p.arbiter_session = ["arbiter", "watch", "arbiter-left"][rng.below(3) as usize].to_string();
+    }
+    p
+}
+
+fn gen_base(rng: &mut Rng, scenario: &str) -> Program {
     let mut uniq = 0;
     match scenario {
         "concurrent" => {
@@ -70,23 +82,23 @@ fn gen(rng: &mut Rng, scenario: &str) -> Program {
             let a = gen_ops(rng, na, &mut uniq, false);
             let nb = rng.range(1, 3) as usize;
             let b = gen_ops(rng, nb, &mut uniq, false);
-            Program { db: "n".into(), clients: vec![a, b], nodes: 1, legacy_strategy: String::new(), legacy_clean_stop: false }
+            Program { db: "n".into(), clients: vec![a, b], nodes: 1, legacy_strategy: String::new(), legacy_clean_stop: false, arbiter_session: String::new() }
         }
         "replicated" => {
             let na = rng.range(1, 6) as usize;
             let a = gen_ops(rng, na, &mut uniq, false);
-            Program { db: "n".into(), clients: vec![a], nodes: rng.range(2, 3) as usize, legacy_strategy: String::new(), legacy_clean_stop: false }
+            Program { db: "n".into(), clients: vec![a], nodes: rng.range(2, 3) as usize, legacy_strategy: String::new(), legacy_clean_stop: false, arbiter_session: String::new() }
         }
         "legacy" => {
             let na = rng.range(1, 6) as usize;
             let a = gen_ops(rng, na, &mut uniq, true);
             let strat = ["none", "arbiter", "newer", ""][rng.below(4) as usize].to_string();
-            Program { db: "l".into(), clients: vec![a], nodes: 1, legacy_strategy: strat, legacy_clean_stop: rng.chance(1, 2) }
+            Program { db: "l".into(), clients: vec![a], nodes: 1, legacy_strategy: strat, legacy_clean_stop: rng.chance(1, 2), arbiter_session: String::new() }
         }
         _ => {
             let na = rng.range(1, 6) as usize;
             let a = gen_ops(rng, na, &mut uniq, true);
-            Program { db: if rng.chance(1, 4) { "$admin".into() } else { "n".into() }, clients: vec![a], nodes: 1, legacy_strategy: String::new(), legacy_clean_stop: false }
+            Program { db: if rng.chance(1, 4) { "$admin".into() } else { "n".into() }, clients: vec![a], nodes: 1, legacy_strategy: String::new(), legacy_clean_stop: false, arbiter_session: String::new() }
         }
     }
 }
@@ -424,6 +436,20 @@ fn execute(prog: Program, scenario: String) -> Outcome {
         dbs
     };
     out.setup = Ok(());
+    // somebody registered as arbiter of the database: on a newer database that changes nothing
+    let mut _arbiter_session: Option<Session> = None;
+    if !prog.arbiter_session.is_empty() {
+        let mut a = Session::admin(&dbs);
+        if select(&mut a, &prog.db) {
+            a.exec(if prog.arbiter_session == "watch" { "watch $conflicts" } else { "arbiter" });
+            if prog.arbiter_session == "arbiter-left" {
+                a.exec("unwatch-all");
+                a.disconnect();
+            } else {
+                _arbiter_session = Some(a);
+            }
+        }
+    }
     match scenario.as_str() {
         "concurrent" => concurrent(&w, &dbs, &prog, &mut out),
         "replicated" => {
